@@ -209,8 +209,8 @@ func Gofmt(p *Prog) error {
 // C13: respelling of use-site type expressions into identical types
 
 type RespellInfo struct {
-	LocalAlias, ThirdPkgAlias, Paren, ImportRename int
-	Sites                                          map[int]bool // site ids whose spelling changed
+	LocalAlias, ThirdPkgAlias, Paren, ImportRename, Recv int
+	Sites                                                map[int]bool // site ids whose spelling changed
 }
 
 // allRefs lists every type mention that may be respelled, with the file and
@@ -221,6 +221,7 @@ type refSlot struct {
 	site    int
 	parenOK bool
 	aliasOK bool
+	recv    bool // a method receiver: parentheses and local aliases only
 }
 
 func (p *Prog) refSlots() []refSlot {
@@ -234,8 +235,16 @@ func (p *Prog) refSlots() []refSlot {
 		switch s.Kind {
 		case "param", "result", "field", "var", "var2", "varptr", "varblank", "varinit", "new", "conv":
 			slot.parenOK = true
-		case "recv", "embedded", "typedecl":
-			return // receivers and embedded fields keep their spelling
+		case "recv":
+			// func (r *(T)) / (r (*T)) / (r *LocalAlias): the method's own annotations are
+			// attributed through the receiver's spelling, which is the declaration side
+			// of things, not a use site - only unannotated methods are respelled
+			if fn := si.Ctx.Func; fn == nil || fn.TestOnly || fn.PackageOnly != nil {
+				return
+			}
+			slot.parenOK, slot.recv = true, true
+		case "embedded", "typedecl":
+			return // embedded fields keep their spelling
 		}
 		out = append(out, slot)
 	})
@@ -303,6 +312,28 @@ func Respell(t *rapid.T, p *Prog) RespellInfo {
 		}
 		user := sl.file.Pkg
 		if sl.file.Kind != FileRegular {
+			continue
+		}
+		if sl.recv {
+			switch rapid.IntRange(0, 9).Draw(t, "respellRecv") {
+			case 0, 1:
+				sl.ref.Via = getLocal(user, sl.ref.Type)
+				info.LocalAlias++
+				info.Recv++
+				info.Sites[sl.site] = true
+			case 2, 3:
+				sl.ref.Paren = true
+				info.Paren++
+				info.Recv++
+				info.Sites[sl.site] = true
+			case 4:
+				if sl.ref.Ptr {
+					sl.ref.ParenAll = true
+					info.Paren++
+					info.Recv++
+					info.Sites[sl.site] = true
+				}
+			}
 			continue
 		}
 		switch rapid.IntRange(0, 9).Draw(t, "respell") {
